@@ -53,6 +53,12 @@ static const char *curated_texts[] = {
   "S : A # top (0) ; A : 'a' # p 2 (0) | 'a' # q 1 (0) | 'a' # r 1 (0) | 'a' # s 1 (0) ;",
   // 23 ambiguous expression, all costs equal (many ties)
   "E : E '+' E # plus 1 (0 2) | 'a' # 0 ;",
+  // 24 nullable nonterminal in the middle of a rule whose item is reached from two origins
+  "S : A A # s (0 1) ; A : B C 'y' # a (0 1 2) | 'x' # 0 ; B : 'x' # b1 () | 'x' 'x' # b2 () ; C : # c0 () | 'c' # c1 () ;",
+  // 25 the same shape under an optional prefix, nullable chain in the middle
+  "S : 'x' A # p (1) | A # 0 ; A : B C D 'y' # a (0 1 2) ; B : 'x' # b1 () | 'x' 'x' # b2 () ; C : D # 0 | 'c' # c1 () ; D : # d0 () ;",
+  // 26 FOLLOW sets that need several propagation rounds against the declaration order
+  "S : 'p' Y 'q' # s1 (1) | 'p' Z 'r' # s2 (1) | 'a' # 0 ; Z : W 'x' # z1 (0) | W # 0 ; W : V # 0 ; V : Y # 0 ; Y : 'l' S # y (1) ;",
   NULL
 };
 
